@@ -39,6 +39,35 @@ def record_fields(eng):
     return out
 
 
+def _is_append_helper(eng, call):
+    """the callee builds  w = <alloc>(len(v) + 1 ...); w[:-1] = v; w[-1] = e; return w   for its first two parameters (v, e)"""
+    ci = eng.res.calls.get(id(call))
+    if ci is None or len(ci.targets) != 1 or len(call.args) != 2:
+        return False
+    t = ci.targets[0]
+    if t.is_lambda or len(t.posparams) != 2:
+        return False
+    v, e = t.posparams
+    rets = [r for r in eng.prog.own_nodes(t) if isinstance(r, ast.Return)]
+    if len(rets) != 1 or not isinstance(rets[0].value, ast.Name):
+        return False
+    w = rets[0].value.id
+    alloc = body = last = False
+    for node in eng.prog.own_nodes(t):
+        if isinstance(node, ast.Assign) and len(node.targets) == 1:
+            tg, val = node.targets[0], node.value
+            if isinstance(tg, ast.Name) and tg.id == w and isinstance(val, ast.Call) and ekey(val.func).split(".")[-1] in ("zeros", "empty", "ones", "full"):
+                txt = ekey(val).replace(" ", "")
+                alloc = ("len(%s)+1" % v) in txt or ("%s.shape[0]+1" % v) in txt or ("%s.size+1" % v) in txt
+            elif isinstance(tg, ast.Subscript) and isinstance(tg.value, ast.Name) and tg.value.id == w:
+                st = ekey(tg.slice).replace(" ", "")
+                if st == ":-1" and ekey(val) == v:
+                    body = True
+                elif st == "-1" and ekey(val) == e:
+                    last = True
+    return alloc and body and last
+
+
 def rule_parallel_arrays(eng, rep, rule="C17-1.per-point-arrays-move-together"):
     rec = record_fields(eng)
     if not rep.require_count(rule, "per-point record fields (written by change_point at index k)", len(rec), 5):
@@ -62,6 +91,12 @@ def rule_parallel_arrays(eng, rep, rule="C17-1.per-point-arrays-move-together"):
                     # whole-array re-binding
                     if isinstance(val, ast.Call) and ekey(val.func).endswith("append") and val.args and ekey(val.args[0]) == ekey(t):
                         kinds.setdefault("append", {})[f] = "end"
+                    elif isinstance(val, ast.Call) and val.args and ekey(val.args[0]) == ekey(t) and _is_append_helper(eng, val):
+                        kinds.setdefault("append", {})[f] = "end"       # a local/internal helper that returns a copy with one more entry
+                    elif isinstance(val, ast.Call) and id(val) in eng.res.calls and eng.res.calls[id(val)].targets and any(ekey(a) == ekey(t) for a in val.args):
+                        rep.unknown(rule, eng.where(m, node), "`%s` re-binds a record array through the internal helper %s, whose effect the rule cannot classify (append / permutation / other)"
+                                    % (short(node, 50), eng.res.calls[id(val)].targets[0].qualname))
+                        continue
                     elif m.qualname.endswith(".__init__"):
                         kinds.setdefault("alloc", {})[f] = "-"
                     else:
@@ -148,7 +183,7 @@ def rule_sample_counts(eng, rep, rule="C17-3.sample-count-is-1-on-replace-and-pl
                     rep.bad(rule, site, "%s|nsamples-increment" % m.fid, "`%s`: sample count must grow by exactly 1, and only where a sample is averaged in" % short(node))
             else:
                 v = node.value
-                lit = const_value(v) == 1 or (isinstance(v, ast.Call) and ekey(v.func).endswith("append") and len(v.args) > 1 and const_value(v.args[1]) == 1)
+                lit = const_value(v) == 1 or (isinstance(v, ast.Call) and (ekey(v.func).endswith("append") or _is_append_helper(eng, v)) and len(v.args) > 1 and const_value(v.args[1]) == 1)
                 reloc = isinstance(v, ast.Subscript) and "nsamples" in ekey(v.value)
                 if writes_pts and lit:
                     rep.ok(rule, site, "a replaced / appended point starts with sample count 1")
